@@ -90,7 +90,12 @@ CLAIMS["C20"] = {
             "(tombstone_keeps_tree), hence the epoch hash and every audit proof (tombstone_epochHash, tombstone_audit); lookups of "
             "other labels, and of the tombstoned label when the cut is below its latest update, return the identical answer "
             "(tombstone_other_lookup, tombstone_own_lookup); a later publish produces the same tree, epoch and root hash as it "
-            "would have without the tombstone, with value states equal up to the tombstoned values (tombstone_then_publish). What a "
+            "would have without the tombstone, with value states equal up to the tombstoned values (tombstone_then_publish). At "
+            "storage level (Store.tombstone, the model of StorageManager::tombstone_value_states): the label's states after the call are "
+            "exactly the old ones with those of epoch <= cut turned into tombstones, inside an open transaction as outside "
+            "(tombstone_exact, tombstone_keeps_later), every other key reads as before (tombstone_frame), the transaction flag is "
+            "untouched (tombstone_active); tied to the Rust by the l1.store stream (tombstones outside and inside transactions, "
+            "oracle on the manager's view before/after). What a "
             "history request shows for tombstoned entries is decided by the correspondence run with oracles spec.root / spec.lookup "
             "/ spec.history.tomb after every tombstone step and after further publishes.",
     "note": BASE_NOTE,
@@ -168,7 +173,13 @@ CLAIMS["C13"] = {
             "on a second instance with a publish at storage-call granularity — which found that key_history re-read the epoch record "
             "per update proof (defect D5, repaired), and, with readers sharing the writer's cached storage manager and read "
             "latency, that a stale read-through fill replaced the committed records in the cache (defect D11, repaired; the repaired "
-            "protocol is proved coherent for all interleavings in CacheFill.lean). PARTIAL: the change-poller clause is not decided.",
+            "protocol is proved coherent for all interleavings in CacheFill.lean). THE CHANGE-POLLER CLAUSE: proved in Lean over the "
+            "polling model Poll.lean (poller with detection / cache_lock.write / flush / re-fetch through the cache / notification, "
+            "guarded requests, publishes by another instance, every interleaving): a request that starts after epoch k was signalled "
+            "is answered from an epoch >= k (answers_after_signal), the cached epoch record is never older than what was signalled "
+            "(signalled_is_served), no request overlaps the flush (flush_excludes_requests); it FAILS for a request that does not take "
+            "the lock (unguarded_witness) — which is what get_epoch_hash did at the pinned commit: defect D12, found on the real code "
+            "by running poll_for_azks_changes as a daemon task under the storage-call scheduler (paused clock), repaired in /repo.",
     "note": BASE_NOTE + "The interleaving exploration is a search over schedules of the real code (it supplies the failing schedule); the "
             "theorem is the record-level snapshot property those requests rely on.",
 }
